@@ -1,0 +1,33 @@
+//go:build verif
+
+package builtin
+
+import (
+	"encoding/json"
+	"ti/base"
+)
+
+// VerifParseTypeString exposes parseTypeString.
+func VerifParseTypeString(s string) base.T { return parseTypeString(s) }
+
+// VerifParseArguments decodes a JSON array of argument objects exactly as the loader does
+// and exposes parseArguments.
+func VerifParseArguments(jsonArgs string) ([]base.T, error) {
+	var args []MethodArgument
+	if err := json.Unmarshal([]byte(jsonArgs), &args); err != nil {
+		return nil, err
+	}
+	return parseArguments(args), nil
+}
+
+// VerifParseReturnType decodes a JSON return_type object and exposes parseReturnType.
+func VerifParseReturnType(jsonRet string) (base.T, error) {
+	var ret MethodReturn
+	if err := json.Unmarshal([]byte(jsonRet), &ret); err != nil {
+		return base.T{}, err
+	}
+	return parseReturnType(ret), nil
+}
+
+// VerifLoad re-runs the configuration loader against the current working directory.
+func VerifLoad() error { return loadBuiltinFromJSON() }
